@@ -373,10 +373,12 @@ def _check_for_modified_notes(
         if note.modify_date != today and note_has_changed:
             note.modify_date = today
             modify_short_date = zdt.to_short_date_spec(dt.date.today())
-            # If the modify date is the same as the create date, then no modify
-            # date spec should exist yet...
+            # If the note's text still starts with its ZID, then no modify date
+            # spec exists yet (the note's own text decides this, NOT the old
+            # index state: an interrupted reindex can leave the index with a
+            # modify date that never made it into the file)...
             assert old_note is not None
-            if old_note.modify_date == note.create_date:
+            if note.body.split()[0] == note.zid:
                 old_body = f"{note.body.lstrip()}"
             # Otherwise, we need to remove the old modify date spec before
             # adding the new one.
